@@ -21,6 +21,7 @@ import (
 	"encoding/hex"
 	"flag"
 	"fmt"
+	"regexp"
 	"strings"
 
 	"verif/internal/evid"
@@ -121,7 +122,7 @@ func main() {
 			cls := kind + ":" + op + ":" + v.r.Shape()
 			if kind == "panic" && strings.Contains(op, "type-corrupted") {
 				// hostile inputs: the shape is incidental, the panic message names the fault
-				cls = kind + ":" + op + ":" + firstLine(rs.Panic)
+				cls = kind + ":" + op + ":" + negIndexRe.ReplaceAllString(firstLine(rs.Panic), "[-N]")
 			}
 			viol(cls, fmt.Sprintf("%s of %s: %s", op, v.r.Name, firstLine(rs.Panic)), v, extra)
 			return true
@@ -406,6 +407,9 @@ func declaredMax(b []byte) int64 {
 	val(refsem.TStruct, 0)
 	return mx
 }
+
+// a negative index is the (int8) type byte itself: one class for all of them
+var negIndexRe = regexp.MustCompile(`\[-\d+\]`)
 
 type pert struct {
 	b    []byte
